@@ -186,23 +186,13 @@ func checkC10(c *Ctx, r *Report) {
 		fav := anyEdge(edgeNil(isGaterValue, true), edgeBool(allow, true))
 		sinks := s.sinks(c, f)
 		r1.guard(f, s.sinkD, sinks, s.gate+" allow (or no gater)", fav, nil)
-		// reject edge
-		var rej []CFGEdge
-		for _, b := range f.Blocks {
-			for i := range b.Succs {
-				if edgeBool(allow, false)(b, i) {
-					rej = append(rej, CFGEdge{b, i})
-				}
-			}
-		}
-		if len(rej) == 0 {
-			r1.Fail(name+": reject edge", f.Pos(), "no branch on the gate's answer", "")
-			continue
-		}
-		// the reject edge never reaches a sink in the same pass (loop re-entry through the accept call ends the region)
+		// a rejection: from each evaluation of the gate, whatever is reached without passing its allow edge.
+		// (stated from the call, not from a branch on its result: the answer may be stored in a variable first)
 		gset := map[ssa.Instruction]bool{}
+		var gateInstrs []ssa.Instruction
 		for _, g := range gates {
 			gset[g.(ssa.Instruction)] = true
+			gateInstrs = append(gateInstrs, g.(ssa.Instruction))
 		}
 		nextEval := func(in ssa.Instruction) bool {
 			if gset[in] {
@@ -212,11 +202,35 @@ func checkC10(c *Ctx, r *Report) {
 			u, ok := in.(*ssa.UnOp)
 			return ok && u.Op == token.MUL && isGaterValue(u)
 		}
-		q := &Cut{Fn: f, FromEdges: rej, Target: inSet(sinks), Sep: nextEval}
-		r1.mustPass(f, name+": reject edge reaches no success sink before the next gate evaluation", q, len(rej))
+		allowEdge := edgeBool(allow, true)
+		// some branch must depend on the answer
+		nAllow := 0
+		used := false
+		for _, g := range gates {
+			if v := g.Value(); v != nil && v.Referrers() != nil {
+				for _, ref := range *v.Referrers() {
+					if _, dbg := ref.(*ssa.DebugRef); !dbg {
+						used = true
+					}
+				}
+			}
+		}
+		for _, b := range f.Blocks {
+			for i := range b.Succs {
+				if allowEdge(b, i) {
+					nAllow++
+				}
+			}
+		}
+		if !used {
+			r1.Fail(name+": reject edge", f.Pos(), "no branch on the gate's answer", "")
+			continue
+		}
+		q := &Cut{Fn: f, From: gateInstrs, StopAtFrom: true, Target: inSet(sinks), EdgeCut: allowEdge, Sep: nextEval}
+		r1.mustPass(f, name+": reject edge reaches no success sink before the next gate evaluation", q, len(gateInstrs))
 		switch s.closeOnReject {
 		case "call":
-			q := &Cut{Fn: f, FromEdges: rej, Sep: func(in ssa.Instruction) bool {
+			q := &Cut{Fn: f, From: gateInstrs, StopAtFrom: true, EdgeCut: allowEdge, Sep: func(in ssa.Instruction) bool {
 				return releasesLike(in, "Close", "CloseWithError", "closeWithError")
 			}, Target: func(in ssa.Instruction) bool {
 				if nextEval(in) {
@@ -225,7 +239,7 @@ func checkC10(c *Ctx, r *Report) {
 				_, isRet := in.(*ssa.Return)
 				return isRet
 			}}
-			r1.mustPass(f, name+": reject edge closes the connection", q, len(rej))
+			r1.mustPass(f, name+": reject edge closes the connection", q, len(gateInstrs))
 		case "defer":
 			ok := false
 			for _, d := range findInstrs(f, func(in ssa.Instruction) bool { _, ok := in.(*ssa.Defer); return ok }) {
